@@ -74,6 +74,37 @@ fn eval_case(c: &Case, take: usize) -> (Prog, String, Option<String>, bool, u64)
             break;
         }
     }
+    // `loop { g }` / `anyo`: every unfolding of the loop is a branch of its own — an answer the body delivers only ONCE
+    // among its first answers must come again (from the second unfolding) although the first unfolding's stream never
+    // ends (seeded change C07-h: the next unfolding started only when the current one was exhausted)
+    if fail.is_none() {
+        let body: Option<Vec<PG>> = match &c.disj {
+            PG::Loop(cs) if cs.len() == 1 => Some(cs[0].clone()),
+            PG::Anyo(b) => Some(vec![(**b).clone()]),
+            _ => None,
+        };
+        if let Some(b) = body {
+            let mut bb = c.pre.clone();
+            bb.extend(b.iter().cloned());
+            let alone = Prog { nvars: c.nvars, nq: c.nq, take: 30, body: bb, raw: false };
+            let ao = run_prog_b(&alone, 20_000);
+            let t = last_ticks();
+            let (a, _) = answers_of(&ao);
+            if let Some(rare) = a.iter().find(|x| a.iter().filter(|y| y == x).count() == 1) {
+                let comb = Prog { take: 150, ..p.clone() };
+                let co = run_prog_b(&comb, 400 * t + 20_000);
+                let (got, _) = answers_of(&co);
+                let n = got.iter().filter(|y| *y == rare).count();
+                nontrivial = true;
+                if n < 2 {
+                    fail = Some(format!(
+                        "the loop body delivers `{}` once among its first {} answers; 150 answers of the loop contain it {} time(s): the later unfoldings of the loop are starved",
+                        rare, a.len(), n
+                    ));
+                }
+            }
+        }
+    }
     (p, line, fail, nontrivial, fuel)
 }
 
@@ -176,7 +207,20 @@ impl Gen {
     }
     fn case(&self, r: &mut Rng) -> Case {
         let mut tag = 0;
-        let disj = self.disj(r, 1, &mut tag);
+        let disj = if r.chance(1, 6) {
+            // a loop whose body has a stream that never ends: an infinite producer, or a silent diverger, beside an answer
+            let q = self.q(r);
+            let inf = match r.below(3) {
+                0 => vec![PG::Always, PG::Eq(q.clone(), T::Num(2))],
+                1 => vec![PG::Never],
+                _ => vec![PG::Call("member".into(), vec![T::Num(2), q.clone()])],
+            };
+            let fin = vec![PG::Eq(q, T::Num(1))];
+            let cs = if r.chance(1, 2) { vec![fin, inf] } else { vec![inf, fin] };
+            PG::Loop(vec![vec![PG::Conde(cs)]])
+        } else {
+            self.disj(r, 1, &mut tag)
+        };
         let pre = if r.chance(1, 3) {
             let sg = SearchGen { nq: self.nq, nh: self.nh, dfs_safe: true, committed: false, calls: true };
             vec![sg.goal(r, 1)]
@@ -198,6 +242,7 @@ fn corpus() -> Vec<&'static str> {
         "prog 1 1 6 - conde 2 1 never 1 conde 2 1 never 1 eq v0 i3",
         "prog 2 1 6 - conde 2 1 call member 2 i1 v0 1 call member 2 i2 v0",
         "prog 1 1 8 - loop 1 1 conde 3 1 eq i1 v0 1 eq i2 v0 1 eq i3 v0",
+        "prog 1 1 12 - loop 1 1 conde 2 1 eq v0 i1 2 always eq v0 i2",
     ]
 }
 
